@@ -164,7 +164,7 @@ func (c *Ctx) checkLockPairing(rule string, pkgs []string, eng *lockEngine, floo
 		n++
 		la := eng.analyze(fn)
 		c.sawFunc(c.fnKey(fn))
-		if len(la.requires) > 0 {
+		if len(la.requires) > 0 && !la.inContext {
 			// a function that releases (or relies on) a lock it did not take is sound only if every
 			// call is a static call whose lockset was verified; closures and method values are not
 			escapes := fn.Parent() != nil
